@@ -250,8 +250,13 @@ Record version := mkver {
   v_stitch_same_alloc : bool;     (* chunk freed through the allocator that came back with it, which is state.m8 *)
   v_clone_same_alloc : bool;      (* precomputed hashers are cloned with the receiving thread's allocator *)
   v_slice_frees_input : bool;
-  v_multi_restores_input : bool }. (* fix 2822ce4: a failed chunk no longer makes CompressMulti return
-                                      before the input is handed back *)
+  v_multi_restores_input : bool;  (* fix 2822ce4 *)
+  v_dict_installs_first : bool;   (* the by-value hasher is stored in the state before any return *)
+  v_dict_ignores_one_byte : bool; (* `size <= 1` is part of the `dictionary ignored` condition *)
+  v_dict_cut_discards : bool;     (* a dictionary cut to the window discards a supplied hasher ... *)
+  v_dict_cut_frees : bool;        (* ... through DestroyHasher(&mut self.m8, ..) *)
+  v_copy_try_exits_destroy : bool;(* every `?` inside the copy loop has the destroy call in front of it *)
+  v_join_failure_continues : bool }. (* a job that cannot be joined no longer ends the stitching loop *)
 
 Definition current (debug : bool) : version :=
   mkver debug (map fld_of_code cleanup_frees) destroy_instance_calls_cleanup
@@ -260,14 +265,18 @@ Definition current (debug : bool) : version :=
         (copy_returns =? copy_returns_destroying) copy_tail_destroys
         part_destroys_before_result part_error_frees_chunk
         (stitch_frees_with_result_alloc && part_returns_state_alloc && stitch_hands_back_alloc)
-        multi_clones_with_thread_alloc slice_frees_input_with_alloc0 multi_restores_input_on_error.
+        multi_clones_with_thread_alloc slice_frees_input_with_alloc0 multi_restores_input_on_error
+        dict_installs_hasher_before_any_return dict_ignores_one_byte dict_cut_discards_supplied_hasher
+        dict_cut_frees_supplied_hasher (copy_try_exits =? copy_try_exits_destroying)
+        (join_failure_keeps_stitching && stitch_frees_chunks_after_failure).
 
 Definition legacy (debug : bool) : version :=
   let c := current debug in
   mkver debug (v_cleanup_fields c) (v_destroy_cleans c) false (v_dict_destroys_orig c) false false false
         (v_oneshot_destroys c) (v_writer_drop_destroys c) (v_reader_drop_destroys c)
         (v_copy_returns_destroy c) (v_copy_tail_destroys c) (v_part_destroys c)
-        (v_part_error_frees_chunk c) (v_stitch_same_alloc c) (v_clone_same_alloc c) (v_slice_frees_input c) false.
+        (v_part_error_frees_chunk c) (v_stitch_same_alloc c) (v_clone_same_alloc c) (v_slice_frees_input c) false
+        (v_dict_installs_first c) true false false (v_copy_try_exits_destroy c) false.
 
 (* ------------------------------------------------------------------ phases of a stream call *)
 
@@ -367,25 +376,33 @@ Definition stream_fast (buf_size : N) (phs : list fphase) (s : st) : st :=
     fast_epilogue (do_phases (map of_fphase phs) (fast_prologue buf_size s))
   else s.
 
-(* set_custom_dictionary_with_optional_precomputed_hasher; the optional hasher arrives by value,
-   built by the caller through instance `oinst` *)
+(* set_custom_dictionary_with_optional_precomputed_hasher; the optional hasher arrives by value
+   (local LNew), built by the caller through instance `oinst` *)
 Definition set_dict (ver : version) (size oinst : N) (oshapes : list (ety * N)) (rings : list N)
            (s : st) : st :=
   let s0 := alloc_blocks_from oinst LNew oshapes s in
   let has_opt := negb (isnil (slot (fst s0) LNew)) in
   let s1 := if v_dict_frees_old ver then free_slot FHasher s0 else s0 in
-  let s2 := move LNew FHasher s1 in
+  (* self.hasher_ = opt_hasher, either here or only after the early returns *)
+  let s2 := if v_dict_installs_first ver then move LNew FHasher s1 else s1 in
   let s3 := ensure_init s2 in
   let e3 := fst s3 in
-  if (size =? 0) || (quality e3 =? 0) || (quality e3 =? 1) || (size <=? 1) then
-    (with_params e3 true (quality e3) (lgwin e3) (lgblock e3) (size_hint e3) (q9_5 e3) true
-                 (large_window e3), snd s3)
+  if (size =? 0) || (quality e3 =? 0) || (quality e3 =? 1) || (v_dict_ignores_one_byte ver && (size <=? 1)) then
+    (* return: a hasher that is still a local goes out of scope *)
+    let s3' := drop_slot LNew s3 in
+    (with_params (fst s3') true (quality e3) (lgwin e3) (lgblock e3) (size_hint e3) (q9_5 e3) true
+                 (large_window e3), snd s3')
   else
-    let s4 := do_phases (map PhRingInit rings) s3 in
-    if v_debug ver || negb has_opt then
-      let s5 := if has_opt then move FHasher LNew s4 else s4 in
+    let s3a := if v_dict_installs_first ver then s3 else move LNew FHasher s3 in
+    (* if size > max_dict_size: only the tail is kept and a supplied hasher is of no use *)
+    let cut := (2 ^ lgwin e3 - 16 <? size) && v_dict_cut_discards ver && has_opt in
+    let s3c := if cut then (if v_dict_cut_frees ver then free_slot FHasher s3a else drop_slot FHasher s3a) else s3a in
+    let has_opt' := has_opt && negb cut in
+    let s4 := do_phases (map PhRingInit rings) s3c in
+    if v_debug ver || negb has_opt' then
+      let s5 := if has_opt' then move FHasher LNew s4 else s4 in
       let s6 := do_phase PhHasherSetup s5 in
-      if has_opt then (if v_dict_destroys_orig ver then free_slot LNew s6 else drop_slot LNew s6) else s6
+      if has_opt' then (if v_dict_destroys_orig ver then free_slot LNew s6 else drop_slot LNew s6) else s6
     else s4.
 
 (* BrotliEncoderDestroyInstance -> cleanup: free_cell(take(field)) for each listed field *)
@@ -428,13 +445,19 @@ Definition reader_life (ver : version) (q w : N) (calls : list op) : ledger :=
   instance_life ver 0 (OSetParam PQuality q :: OSetParam PLgwin w :: calls)
                 (v_reader_drop_destroys ver) empty_ledger.
 
-(* BrotliCompressCustomIoCustomDict: the ways out of the loop - two `return`s inside it (the sink
-   failed; the sink accepted zero bytes) and two `break`s (no progress / read error; finished) *)
-Inductive copy_exit := XWriteError | XZeroWrite | XNoProgress | XFinished.
+(* BrotliCompressCustomIoCustomDict: the ways out once the state exists - inside the loop two
+   `return`s (the sink failed; the sink accepted zero bytes), each preceded by a `read_err?` that
+   leaves first when the source had failed before, and two `break`s (no progress; finished) *)
+Inductive copy_exit :=
+| XWriteError | XZeroWrite                         (* `return Err(..)` in the two sink-failure arms *)
+| XWriteErrorReadPending | XZeroWriteReadPending   (* `read_err?` in those arms: a source error is pending *)
+| XNoProgress | XFinished.                         (* the two `break`s *)
 Definition copy_exit_destroys (ver : version) (x : copy_exit) : bool :=
   match x with
   | XWriteError => v_copy_returns_destroy ver
   | XZeroWrite => v_copy_returns_destroy ver
+  | XWriteErrorReadPending => v_copy_try_exits_destroy ver
+  | XZeroWriteReadPending => v_copy_try_exits_destroy ver
   | XNoProgress => v_copy_tail_destroys ver
   | XFinished => v_copy_tail_destroys ver
   end.
@@ -503,13 +526,19 @@ Definition multi_slice_life (ver : version) (oshapes : list (ety * N)) (input_le
                          CompressMultiSlice then panics on owned_input.unwrap() *)
   else if v_slice_frees_input ver then l_free 0 inp l1 else l_drop inp l1.
 
-(* a worker that is lost (join fails) takes its result with it, and the early return of
-   CompressMulti leaves the results of the later workers unjoined: modelled as the chunks
-   from index `k` on never being stitched *)
+(* a worker that cannot be joined takes its result - chunk and allocator - with it.  The code
+   used to return at once, leaving the later workers unjoined; now it keeps stitching and only
+   the lost worker's own chunk is beyond reach *)
 Definition multi_life_joinfail (ver : version) (oshapes : list (ety * N)) (ts : list thread_spec)
            (k : nat) : ledger :=
   let (cs, l1) := run_threads ver oshapes 0 ts empty_ledger in
-  stitch (fun i => if v_stitch_same_alloc ver then i else i + 1000) (firstn k cs) l1.
+  stitch (fun i => if v_stitch_same_alloc ver then i else i + 1000)
+         (if v_join_failure_continues ver then remove_nth k cs else firstn k cs) l1.
+Definition lost_chunk (ver : version) (oshapes : list (ety * N)) (ts : list thread_spec) (k : nat) : list blk :=
+  match nth_error (fst (run_threads ver oshapes 0 ts empty_ledger)) k with
+  | Some c => snd c
+  | None => []
+  end.
 
 (* C ABI: the state block itself goes through the callbacks when they are given; one opaque =
    one instance.  `state_size` is size_of::<BrotliEncoderState>() *)
